@@ -26,17 +26,26 @@ Notation projectR := (@project R NumR).
 
 Ltac clamp_cases b :=
   destruct b as [[l|] [u|]]; unfold clamp, in_bound, lb_ok, ub_ok, wf_bound in *; cbn [fst snd] in *; unfold_num; unfold Rltb;
-  repeat match goal with |- context [Rlt_dec ?a ?c] => destruct (Rlt_dec a c) end.
+  repeat match goal with |- context [Rlt_dec ?a ?c] =>
+    lazymatch c with context [Rlt_dec _ _] => fail | _ => destruct (Rlt_dec a c) end end.
 
 Lemma clamp_in_bound x b : wf_bound b -> in_bound b (clampR x b).
 Proof. intros W. clamp_cases b; split; try exact I; lra. Qed.
 Lemma clamp_fixes x b : in_bound b x -> clampR x b = x.
 Proof. intros [A B]. clamp_cases b; lra. Qed.
 Lemma clamp_nearest x y b : wf_bound b -> in_bound b y -> (x - clampR x b) * (x - clampR x b) <= (x - y) * (x - y).
-Proof. intros W [A B]. clamp_cases b; nra. Qed.
+Proof.
+  intros W [A B]. pose proof (Rle_0_sqr (x - y)) as Hq; unfold Rsqr in Hq. clamp_cases b; try lra; try nra;
+    try (assert (0 <= (u - y) * ((x - u) + (x - y))) by (apply Rmult_le_pos; lra); nra);
+    try (assert (0 <= (y - l) * ((l - x) + (y - x))) by (apply Rmult_le_pos; lra); nra).
+Qed.
 (* variational inequality of the projection: (x - P x)(y - P x) <= 0 for feasible y *)
 Lemma clamp_obtuse x y b : wf_bound b -> in_bound b y -> (x - clampR x b) * (y - clampR x b) <= 0.
-Proof. intros W [A B]. clamp_cases b; nra. Qed.
+Proof.
+  intros W [A B]. clamp_cases b; try nra;
+    try (assert (0 <= (x - u) * (u - y)) by (apply Rmult_le_pos; lra); nra);
+    try (assert (0 <= (l - x) * (y - l)) by (apply Rmult_le_pos; lra); nra).
+Qed.
 
 Lemma project_length x bs : length x = length bs -> length (projectR x bs) = length bs.
 Proof. revert bs; induction x as [|a x IH]; intros [|b bs] E; simpl in *; try discriminate; auto. Qed.
@@ -62,9 +71,10 @@ Proof. revert y; induction bs as [|b bs IH]; intros [|a y] H; simpl in *; try co
 Theorem project_nearest x y bs : wf_box bs -> length x = length bs -> in_box bs y ->
   rsub x (projectR x bs) ⋅ rsub x (projectR x bs) <= rsub x y ⋅ rsub x y.
 Proof.
-  revert y bs; induction x as [|a x IH]; intros [|c y] [|b bs] W E H; simpl in *; try discriminate; try contradiction.
-  - rewrite !rdot_nil_l. lra.
-  - inversion W; subst. destruct H as [H1 H2].
+  revert y bs; induction x as [|a x IH]; intros [|c y] [|b bs] W E H; simpl in E, H; try discriminate; try contradiction.
+  - cbn. unfold_num. q2r. lra.
+  - inversion W as [|? ? H3 H4]; subst. destruct H as [H1 H2].
+    change (projectR (a :: x) (b :: bs)) with (clampR a b :: projectR x bs).
     change (rsub (a :: x) (clampR a b :: projectR x bs)) with ((a - clampR a b) :: rsub x (projectR x bs)).
     change (rsub (a :: x) (c :: y)) with ((a - c) :: rsub x y).
     rewrite !rdot_cons. pose proof (clamp_nearest a c b H3 H1). specialize (IH y bs H4 ltac:(congruence) H2). lra.
@@ -99,7 +109,10 @@ Theorem spg_update_feasible bs xNew p alpha : in_box bs xNew -> in_box bs p -> 0
 Proof.
   revert xNew p; induction bs as [|b bs IH]; intros [|a x] [|c p] Hx Hp Ha; simpl in *; try contradiction; [exact I|].
   destruct Hx as [[X1 X2] X3], Hp as [[P1 P2] P3]. unfold_num. split; [|apply IH; assumption].
-  destruct b as [[l|] [u|]]; unfold lb_ok, ub_ok in *; cbn [fst snd] in *; split; try exact I; nra.
+  destruct Ha as [Ha0 Ha1].
+  destruct b as [[l|] [u|]]; unfold in_bound, lb_ok, ub_ok in *; cbn [fst snd] in *; split; try exact I.
+  all: try (assert (0 <= alpha * (c - l)) by (apply Rmult_le_pos; lra); assert (0 <= (1 - alpha) * (a - l)) by (apply Rmult_le_pos; lra); lra).
+  all: try (assert (0 <= alpha * (u - c)) by (apply Rmult_le_pos; lra); assert (0 <= (1 - alpha) * (u - a)) by (apply Rmult_le_pos; lra); lra).
 Qed.
 
 (* the step length of an SPG iteration is in [0,1]: non-monotone rule with q <= qMax *)
@@ -219,14 +232,16 @@ End BCproofs.
 Lemma stationarity_componentwise x g y bs : wf_box bs -> in_box bs y -> length x = length bs -> length g = length bs ->
   projectR (rsub x g) bs = x -> 0 <= g ⋅ rsub y x.
 Proof.
-  revert g y bs; induction x as [|a x IH]; intros [|c g] [|d y] [|b bs] W Hy Ex Eg Hp; simpl in *;
+  revert g y bs; induction x as [|a x IH]; intros [|c g] [|d y] [|b bs] W Hy Ex Eg Hp; simpl in Hy, Ex, Eg;
     try discriminate; try contradiction.
-  - rewrite rdot_nil_l. lra.
-  - inversion W; subst. destruct Hy as [Y1 Y2].
-    change (rsub (a :: x) (c :: g)) with ((a - c) :: rsub x g) in Hp. simpl in Hp. inversion Hp as [[Hc Hr]].
+  - cbn. unfold_num. q2r. lra.
+  - inversion W as [|? ? H1 H2]; subst. destruct Hy as [Y1 Y2].
+    change (rsub (a :: x) (c :: g)) with ((a - c) :: rsub x g) in Hp.
+    change (projectR ((a - c) :: rsub x g) (b :: bs)) with (clampR (a - c) b :: projectR (rsub x g) bs) in Hp.
+    injection Hp as Hc Hr.
     change (rsub (d :: y) (a :: x)) with ((d - a) :: rsub y x). rewrite rdot_cons.
     specialize (IH g y bs H2 Y2 ltac:(congruence) ltac:(congruence) Hr).
-    pose proof (clamp_obtuse (a - c) d b H1 Y1) as Ho. rewrite !Hc in Ho. rewrite Hr in IH. nra.
+    pose proof (clamp_obtuse (a - c) d b H1 Y1) as Ho. rewrite !Hc in Ho. nra.
 Qed.
 
 Theorem convex_stationary_is_minimizer (f : rvec -> R) (gradf : rvec -> rvec) bs x :
